@@ -519,6 +519,55 @@ EXTRA14 = {
 }
 
 
+# addenda of round 15 (technique, text)
+EXTRA15 = {
+    'C01': ('leaf provenance of the candidates under a parent (rule of '
+            'C02)',
+            'The candidates compared under a parent are the leaves below '
+            'that very node.'),
+    'C02': ('order of the ancestor fallback (rule of C08)',
+            'A parent with too few markers of its own is patched from its '
+            'nearest ancestors first.'),
+    'C03': ('rational normal form of the CPM conversion (rule of C07)',
+            'The CPM divisor replaces zero totals, so profiles are '
+            'finite.'),
+    'C04': ('worker-completion label in the taint engine',
+            'A list collected as workers finish carries a timing label on '
+            'its order; integer sums of extents are exact in any order.'),
+    'C06': ('declared normalisation never rebound',
+            'How a cell is normalised is what the caller declared, not '
+            'decided from a statistic of the whole file.'),
+    'C07': ('common provenance of gathered columns and their names',
+            'Columns gathered by position and the names they are labelled '
+            'with come from one selection '
+            '(R-ROLE/columns-and-names-together).'),
+    'C09': ('row provenance of the truncation',
+            'A statistics file that is collapsed is read through its own '
+            'cluster_to_row table (R-PROV/rows-through-file-table).'),
+    'C10': ('whole-tree comparison census of the merge',
+            'Statistics files are merged only after each tree was '
+            'compared with the kept one as a whole '
+            '(R-GUARD/one-tree-per-merge).'),
+    'C11': ('alias classes of in-place stores',
+            'No array is patched through a second name while the first is '
+            'read again (R-ALIAS/edited-through-alias).'),
+    'C13': ('census of worker-count special cases (rule of C04)',
+            'No worker count is singled out for a code path of its own in '
+            'the transposition code.'),
+    'C16': ('agreement of sibling defaults at dispatch sites',
+            'Helpers called in different arms of one dispatch that '
+            'disagree on a default are called with it bound '
+            '(R-AGREE/sibling-defaults).'),
+    'C17': ('dataset provenance of the genes voted on',
+            'The genes of an election come from the parent\'s own cache '
+            'entry, never from the cache-wide union '
+            '(R-PROV/genes-of-this-parent).'),
+    'C20': ('conversion census of path interpolations',
+            'A path is not written into a message through repr() '
+            '(`!r`).'),
+}
+
+
 def main():
     checks = []
     for pid in ALL:
@@ -529,6 +578,11 @@ def main():
             tech = tech + '; ' + EXTRA[pid][0]
             text = text + ' ' + EXTRA[pid][1]
             ref = ref + ' and section 15'
+        if pid in EXTRA15:
+            tech = tech + '; ' + EXTRA15[pid][0]
+            text = text + ' ' + EXTRA15[pid][1]
+            if 'section 15' not in ref:
+                ref = ref + ' and section 15'
         if pid in EXTRA14:
             tech = tech + '; ' + EXTRA14[pid][0]
             text = text + ' ' + EXTRA14[pid][1]
